@@ -416,36 +416,6 @@ def generic_check(pid, tier, base_seed, t0, mod, cfg):
         print("HARNESS-ERROR no run completed")
         return 2
 
-    # determinism verdict
-    bydig = {r["k"]: r["digest"] for r in rows}
-    det_checked = 0
-    for r in det_rows:
-        if "harness_error" in r:
-            print("HARNESS-ERROR (determinism rerun)\n" + r["harness_error"])
-            return 2
-        if r["k"] in bydig:
-            det_checked += 1
-            if bydig[r["k"]] != r["digest"]:
-                print(f"HARNESS-ERROR nondeterministic run k={r['k']} "
-                      f"seed={r['seed']}: {bydig[r['k']]} vs {r['digest']}")
-                return 2
-    fresh_ks = [k for k in det_ks if k in bydig][:cfg.get("det_fresh", 12)]
-    fresh_checked = 0
-    if fresh_ks:
-        try:
-            fd = _digests_fresh_process(pid, tier, base_seed, fresh_ks,
-                                        hashseed=(base_seed % 4000) + 7)
-        except HarnessError as e:
-            print(f"HARNESS-ERROR {e}")
-            return 2
-        for k in fresh_ks:
-            fresh_checked += 1
-            if fd.get(str(k)) != bydig[k]:
-                print(f"HARNESS-ERROR run k={k} differs in a fresh "
-                      f"interpreter under another PYTHONHASHSEED: "
-                      f"{bydig[k]} vs {fd.get(str(k))}")
-                return 2
-
     # aggregate
     agg = aggregate(rows)
     if agg["steps"] == 0 and getattr(mod, "NEEDS_STEPS", True):
@@ -489,6 +459,46 @@ def generic_check(pid, tier, base_seed, t0, mod, cfg):
         reported.append({"sig": sig, "known": False, "runs": len(lst),
                          "replay": path, "clause": v["clause"]})
         exit_code = 1
+
+    # determinism verdict
+    bydig = {r["k"]: r["digest"] for r in rows}
+    det_checked = 0
+    det_error = None
+    for r in det_rows:
+        if "harness_error" in r:
+            det_error = "(determinism rerun)\n" + r["harness_error"]
+            break
+        if r["k"] in bydig:
+            det_checked += 1
+            if bydig[r["k"]] != r["digest"]:
+                det_error = (f"nondeterministic run k={r['k']} "
+                             f"seed={r['seed']}: {bydig[r['k']]} vs "
+                             f"{r['digest']}")
+                break
+    fresh_ks = [k for k in det_ks if k in bydig][:cfg.get("det_fresh", 12)]
+    fresh_checked = 0
+    if fresh_ks and det_error is None:
+        try:
+            fd = _digests_fresh_process(pid, tier, base_seed, fresh_ks,
+                                        hashseed=(base_seed % 4000) + 7)
+        except HarnessError as e:
+            det_error = str(e)
+            fd = {}
+            fresh_ks = []
+        for k in fresh_ks:
+            fresh_checked += 1
+            if fd.get(str(k)) != bydig[k]:
+                det_error = (f"run k={k} differs in a fresh interpreter "
+                             f"under another PYTHONHASHSEED: {bydig[k]} vs "
+                             f"{fd.get(str(k))}")
+                break
+
+    if det_error is not None:
+        if exit_code == 0:
+            print("HARNESS-ERROR " + det_error)
+            return 2
+        print("note: determinism self-test failed as well (" + det_error
+              + "); the violation above is reported regardless")
 
     missing = [p for p in getattr(mod, "REQUIRED_PROBES", {}).get(tier, [])
                if not agg["probes"].get(p)]
